@@ -16,6 +16,30 @@ mod ethnum {
         pub fn wrapping_div(self, _r: U256) -> U256 { unimplemented!() }
         pub fn wrapping_rem(self, _r: U256) -> U256 { unimplemented!() }
         pub fn wrapping_pow(self, _e: u32) -> U256 { unimplemented!() }
+        pub const ZERO: U256 = U256([0, 0]);
+        pub const ONE: U256 = U256([1, 0]);
+        pub const MAX: U256 = U256([u128::MAX, u128::MAX]);
+        pub const MIN: U256 = U256([0, 0]);
+        pub fn new(_v: u128) -> U256 { unimplemented!() }
+        pub fn as_u8(self) -> u8 { unimplemented!() }
+        pub fn as_u16(self) -> u16 { unimplemented!() }
+        pub fn as_u128(self) -> u128 { unimplemented!() }
+        pub fn as_i128(self) -> i128 { unimplemented!() }
+        pub fn as_i256(self) -> I256 { unimplemented!() }
+        pub fn checked_add(self, _r: U256) -> Option<U256> { unimplemented!() }
+        pub fn checked_sub(self, _r: U256) -> Option<U256> { unimplemented!() }
+        pub fn checked_mul(self, _r: U256) -> Option<U256> { unimplemented!() }
+        pub fn checked_div(self, _r: U256) -> Option<U256> { unimplemented!() }
+        pub fn checked_rem(self, _r: U256) -> Option<U256> { unimplemented!() }
+        pub fn saturating_add(self, _r: U256) -> U256 { unimplemented!() }
+        pub fn saturating_sub(self, _r: U256) -> U256 { unimplemented!() }
+        pub fn saturating_mul(self, _r: U256) -> U256 { unimplemented!() }
+        pub fn wrapping_shl(self, _r: u32) -> U256 { unimplemented!() }
+        pub fn wrapping_shr(self, _r: u32) -> U256 { unimplemented!() }
+        pub fn pow(self, _e: u32) -> U256 { unimplemented!() }
+        pub fn leading_zeros(self) -> u32 { unimplemented!() }
+        pub fn trailing_zeros(self) -> u32 { unimplemented!() }
+        pub fn count_ones(self) -> u32 { unimplemented!() }
         pub fn as_u32(self) -> u32 { unimplemented!() }
         pub fn as_u64(self) -> u64 { unimplemented!() }
         pub fn as_usize(self) -> usize { unimplemented!() }
@@ -30,7 +54,24 @@ mod ethnum {
         pub fn from_be_bytes(_b: [u8; 32]) -> U256 { unimplemented!() }
     }
     impl I256 {
+        pub const ZERO: I256 = I256([0, 0]);
+        pub const ONE: I256 = I256([1, 0]);
+        pub const MINUS_ONE: I256 = I256([-1, -1]);
+        pub const MAX: I256 = I256([-1, i128::MAX]);
+        pub const MIN: I256 = I256([0, i128::MIN]);
         pub fn new(_v: i128) -> I256 { unimplemented!() }
+        pub fn as_u256(self) -> U256 { unimplemented!() }
+        pub fn as_u32(self) -> u32 { unimplemented!() }
+        pub fn as_usize(self) -> usize { unimplemented!() }
+        pub fn wrapping_add(self, _r: I256) -> I256 { unimplemented!() }
+        pub fn wrapping_sub(self, _r: I256) -> I256 { unimplemented!() }
+        pub fn wrapping_mul(self, _r: I256) -> I256 { unimplemented!() }
+        pub fn wrapping_neg(self) -> I256 { unimplemented!() }
+        pub fn wrapping_abs(self) -> I256 { unimplemented!() }
+        pub fn checked_div(self, _r: I256) -> Option<I256> { unimplemented!() }
+        pub fn checked_rem(self, _r: I256) -> Option<I256> { unimplemented!() }
+        pub fn is_negative(self) -> bool { unimplemented!() }
+        pub fn signum(self) -> I256 { unimplemented!() }
         pub fn wrapping_div(self, _r: I256) -> I256 { unimplemented!() }
         pub fn wrapping_rem(self, _r: I256) -> I256 { unimplemented!() }
         pub fn to_ne_bytes(self) -> [u8; 32] { unimplemented!() }
@@ -46,6 +87,22 @@ mod ethnum {
     impl core::ops::BitOr<U256> for U256 { type Output = U256; fn bitor(self, _r: U256) -> U256 { unimplemented!() } }
     impl core::ops::BitXor<U256> for U256 { type Output = U256; fn bitxor(self, _r: U256) -> U256 { unimplemented!() } }
     impl core::ops::Not for U256 { type Output = U256; fn not(self) -> U256 { unimplemented!() } }
+    impl core::ops::Add<U256> for U256 { type Output = U256; fn add(self, _r: U256) -> U256 { unimplemented!() } }
+    impl core::ops::Sub<U256> for U256 { type Output = U256; fn sub(self, _r: U256) -> U256 { unimplemented!() } }
+    impl core::ops::Mul<U256> for U256 { type Output = U256; fn mul(self, _r: U256) -> U256 { unimplemented!() } }
+    impl core::ops::Div<U256> for U256 { type Output = U256; fn div(self, _r: U256) -> U256 { unimplemented!() } }
+    impl core::ops::Rem<U256> for U256 { type Output = U256; fn rem(self, _r: U256) -> U256 { unimplemented!() } }
+    impl core::ops::Shl<u32> for U256 { type Output = U256; fn shl(self, _r: u32) -> U256 { unimplemented!() } }
+    impl core::ops::Shr<u32> for I256 { type Output = I256; fn shr(self, _r: u32) -> I256 { unimplemented!() } }
+    impl core::ops::Div<I256> for I256 { type Output = I256; fn div(self, _r: I256) -> I256 { unimplemented!() } }
+    impl core::ops::Rem<I256> for I256 { type Output = I256; fn rem(self, _r: I256) -> I256 { unimplemented!() } }
+    impl core::ops::Neg for I256 { type Output = I256; fn neg(self) -> I256 { unimplemented!() } }
+    impl From<u16> for U256 { fn from(_v: u16) -> U256 { unimplemented!() } }
+    impl From<u64> for U256 { fn from(_v: u64) -> U256 { unimplemented!() } }
+    impl From<i128> for I256 { fn from(_v: i128) -> I256 { unimplemented!() } }
+    impl TryFrom<U256> for u32 { type Error = core::num::TryFromIntError; fn try_from(_v: U256) -> Result<u32, Self::Error> { unimplemented!() } }
+    impl TryFrom<U256> for usize { type Error = core::num::TryFromIntError; fn try_from(_v: U256) -> Result<usize, Self::Error> { unimplemented!() } }
+    impl TryFrom<U256> for u64 { type Error = core::num::TryFromIntError; fn try_from(_v: U256) -> Result<u64, Self::Error> { unimplemented!() } }
     impl From<u8> for U256 { fn from(_v: u8) -> U256 { unimplemented!() } }
     impl From<u32> for U256 { fn from(_v: u32) -> U256 { unimplemented!() } }
     impl From<u128> for U256 { fn from(_v: u128) -> U256 { unimplemented!() } }
@@ -67,6 +124,8 @@ pub open spec fn M() -> nat { 0x1_0000000000000000_0000000000000000_000000000000
 pub open spec fn H() -> nat { 0x1_0000000000000000_0000000000000000nat }
 
 pub uninterp spec fn u(x: U256) -> nat;
+/// the U256 whose value is n (n < 2^256)
+pub open spec fn choose_u(n: nat) -> U256 { choose|x: U256| u(x) == n }
 pub uninterp spec fn s(x: I256) -> int;
 /// value of a native-endian (= little-endian, the crate refuses to build otherwise) 32-byte array
 pub uninterp spec fn le_val(b: [u8; 32]) -> nat;
@@ -127,6 +186,24 @@ pub assume_specification[ U256::as_u64 ](a: U256) -> (r: u64)
     ensures r as nat == u(a) % 0x1_0000_0000_0000_0000;
 pub assume_specification[ U256::as_usize ](a: U256) -> (r: usize)
     ensures r as nat == u(a) % 0x1_0000_0000_0000_0000;   // 64-bit target
+pub assume_specification[ U256::new ](v: u128) -> (r: U256)
+    ensures u(r) == v as nat;
+pub assume_specification[ U256::as_u8 ](a: U256) -> (r: u8)
+    ensures r as nat == u(a) % 0x100;
+pub assume_specification[ U256::as_u16 ](a: U256) -> (r: u16)
+    ensures r as nat == u(a) % 0x1_0000;
+pub assume_specification[ U256::as_u128 ](a: U256) -> (r: u128)
+    ensures r as nat == u(a) % H();
+pub assume_specification[ U256::checked_add ](a: U256, b: U256) -> (r: Option<U256>)
+    ensures r == (if u(a) + u(b) < M() { Some(choose_u(u(a) + u(b))) } else { None });
+pub assume_specification[ U256::saturating_add ](a: U256, b: U256) -> (r: U256)
+    ensures u(r) == (if u(a) + u(b) < M() { u(a) + u(b) } else { (M() - 1) as nat });
+pub assume_specification[ <u32 as core::convert::TryFrom<U256>>::try_from ](a: U256) -> (r: Result<u32, <u32 as core::convert::TryFrom<U256>>::Error>)
+    ensures (r is Ok) == (u(a) <= u32::MAX as nat), r is Ok ==> r->Ok_0 as nat == u(a);
+pub assume_specification[ <usize as core::convert::TryFrom<U256>>::try_from ](a: U256) -> (r: Result<usize, <usize as core::convert::TryFrom<U256>>::Error>)
+    ensures (r is Ok) == (u(a) <= usize::MAX as nat), r is Ok ==> r->Ok_0 as nat == u(a);
+pub assume_specification[ <u64 as core::convert::TryFrom<U256>>::try_from ](a: U256) -> (r: Result<u64, <u64 as core::convert::TryFrom<U256>>::Error>)
+    ensures (r is Ok) == (u(a) <= u64::MAX as nat), r is Ok ==> r->Ok_0 as nat == u(a);
 pub assume_specification[ U256::swap_bytes ](a: U256) -> (r: U256)
     ensures u(r) == bswap(u(a));
 pub assume_specification[ U256::to_be ](a: U256) -> (r: U256)
@@ -245,6 +322,13 @@ impl vstd::std_specs::cmp::PartialOrdSpecImpl for I256 {
         if s(*self) < s(*other) { Some(core::cmp::Ordering::Less) } else if s(*self) == s(*other) { Some(core::cmp::Ordering::Equal) } else { Some(core::cmp::Ordering::Greater) }
     }
 }
+impl vstd::std_specs::cmp::OrdSpecImpl for U256 {
+    open spec fn obeys_cmp_spec() -> bool { true }
+    open spec fn cmp_spec(&self, other: &U256) -> core::cmp::Ordering {
+        if u(*self) < u(*other) { core::cmp::Ordering::Less } else if u(*self) == u(*other) { core::cmp::Ordering::Equal } else { core::cmp::Ordering::Greater }
+    }
+}
+pub assume_specification[ <U256 as core::cmp::Ord>::cmp ](a: &U256, b: &U256) -> (r: core::cmp::Ordering);
 pub assume_specification[ <I256 as core::cmp::PartialOrd>::partial_cmp ](a: &I256, b: &I256) -> (r: Option<core::cmp::Ordering>);
 pub assume_specification[ <U256 as core::convert::From<u8>>::from ](v: u8) -> (r: U256)
     ensures u(r) == v as nat;
